@@ -253,6 +253,35 @@ def expand_module(tree: ast.Module, modname: str) -> int:
             if counter[0] == before:
                 break
 
+        # a new nested `def f(args): return E` that is still there (it is passed around, not called here) reads `f = lambda args: E`
+        def lambdify(stmts):
+            for i, st in enumerate(stmts):
+                if isinstance(st, ast.FunctionDef):
+                    body = [s for s in st.body if not (isinstance(s, ast.Expr) and isinstance(s.value, ast.Constant))]
+                    if f"{modname}:{qual}.{st.name}" not in known and not st.decorator_list and len(body) == 1 \
+                            and isinstance(body[0], ast.Return) and body[0].value is not None and _eligible(st):
+                        args = copy.deepcopy(st.args)
+                        for a in args.posonlyargs + args.args + args.kwonlyargs + [x for x in (args.vararg, args.kwarg) if x is not None]:
+                            a.annotation = None
+                        lam = ast.Lambda(args=args, body=body[0].value)
+                        new = ast.Assign(targets=[ast.Name(id=st.name, ctx=ast.Store())], value=lam)
+                        ast.copy_location(new, st)
+                        ast.copy_location(lam, st)
+                        ast.fix_missing_locations(new)
+                        stmts[i] = new
+                        counter[0] += 1
+                    continue
+                if isinstance(st, ast.ClassDef):
+                    continue
+                for fld in ("body", "orelse", "finalbody"):
+                    v = getattr(st, fld, None)
+                    if isinstance(v, list) and v and isinstance(v[0], ast.stmt):
+                        lambdify(v)
+                if isinstance(st, ast.Try):
+                    for hd in st.handlers:
+                        lambdify(hd.body)
+        lambdify(fn.body)
+
     def walk(body, prefix, cls_helpers):
         for n in body:
             if isinstance(n, ast.FunctionDef):
